@@ -88,6 +88,14 @@ type Owner struct {
 	ID   int64 `gorm:"primaryKey"`
 	Name string
 	Kids []Kid
+	Tags []Tag `gorm:"many2many:owner_tags"`
+}
+
+// Tag: a soft-deletable many2many target of Owner
+type Tag struct {
+	ID        int64 `gorm:"primaryKey"`
+	Name      string
+	DeletedAt gorm.DeletedAt
 }
 type Kid struct {
 	ID        int64 `gorm:"primaryKey"`
@@ -145,7 +153,10 @@ func genRows(r *lib.Rng) []Row {
 	return rows
 }
 
-type env struct{ db *gorm.DB }
+type env struct {
+	db *gorm.DB
+	n  int
+}
 
 type state map[int64]string // id -> "mark|deleted_at"
 
@@ -394,7 +405,9 @@ func (e *env) run(in Input) Obs {
 	o.UnscopedDel = sorted(o.UnscopedDel)
 	// the same chain on the table without the twins
 	fail("reset", e.reset(in, false))
-	{
+	// (the association paths do not depend on the chain: every third case runs them)
+	e.n++
+	if e.n%3 == 1 {
 		var errs []string
 		o.NAssoc, o.NUAssoc, errs = e.assoc(in, false)
 		o.Errs = append(o.Errs, errs...)
@@ -423,12 +436,21 @@ func (e *env) assoc(in Input, twins bool) ([][]int64, [][]int64, []string) {
 			errs = append(errs, w+": "+err.Error())
 		}
 	}
-	for _, t := range []string{"owners", "kids", "keepers", "pets", "wards", "orgs"} {
+	for _, t := range []string{"owners", "kids", "keepers", "pets", "wards", "orgs", "tags", "owner_tags"} {
 		fail("reset", db.Exec("DELETE FROM "+t).Error)
 	}
 	for k := int64(0); k < 3; k++ {
 		fail("ins", db.Exec("INSERT INTO owners (id, name) VALUES (?,?)", k+1, "o").Error)
 		fail("ins", db.Exec("INSERT INTO orgs (id, name) VALUES (?,?)", k+1, "o").Error)
+		// tags k+1 and k+4 belong to owner k+1; with twins also their marked copies
+		for _, tg := range []int64{k + 1, k + 4} {
+			fail("ins", db.Exec("INSERT INTO tags (id, name, deleted_at) VALUES (?,?,NULL)", tg, "t").Error)
+			fail("ins", db.Exec("INSERT INTO owner_tags (owner_id, tag_id) VALUES (?,?)", k+1, tg).Error)
+			if twins {
+				fail("ins", db.Exec("INSERT INTO tags (id, name, deleted_at) VALUES (?,?,?)", tg+100, "t", t1).Error)
+				fail("ins", db.Exec("INSERT INTO owner_tags (owner_id, tag_id) VALUES (?,?)", k+1, tg+100).Error)
+			}
+		}
 		fail("ins", db.Exec("INSERT INTO keepers (id, name, deleted_at, org_id) VALUES (?,?,NULL,?)", k+1, "k", k+1).Error)
 		fail("ins", db.Exec("INSERT INTO pets (id, keeper_id) VALUES (?,?)", k+1, k+1).Error)
 		fail("ins", db.Exec("INSERT INTO wards (id, keeper_id, deleted_at) VALUES (?,?,NULL)", k+1, k+1).Error)
@@ -562,6 +584,40 @@ func (e *env) assoc(in Input, twins bool) ([][]int64, [][]int64, []string) {
 	fail("unscoped_preload", db.Preload("Kids", func(d *gorm.DB) *gorm.DB { return d.Unscoped() }).Order("id").Find(&owners).Error)
 	for _, o := range owners {
 		uout = append(uout, kidIDs(o.Kids))
+	}
+	// many2many targets: preload and association lookups, scoped and Unscoped
+	{
+		tagIDs := func(ts []Tag) []int64 {
+			ids := []int64{}
+			for _, t := range ts {
+				ids = append(ids, t.ID)
+			}
+			return sorted(ids)
+		}
+		var os []Owner
+		fail("m2m_preload", db.Preload("Tags").Order("id").Find(&os).Error)
+		for _, o := range os {
+			out = append(out, tagIDs(o.Tags))
+		}
+		os = nil
+		fail("m2m_preload_cond", db.Preload("Tags", "name = ? OR name = ?", "t", "zz").Order("id").Find(&os).Error)
+		for _, o := range os {
+			out = append(out, tagIDs(o.Tags))
+		}
+		os = nil
+		fail("m2m_unscoped_preload", db.Preload("Tags", func(d *gorm.DB) *gorm.DB { return d.Unscoped() }).Order("id").Find(&os).Error)
+		for _, o := range os {
+			uout = append(uout, tagIDs(o.Tags))
+		}
+		for k := int64(1); k <= 3; k++ {
+			var ts []Tag
+			fail("m2m_assoc_find", db.Model(&Owner{ID: k}).Association("Tags").Find(&ts))
+			out = append(out, tagIDs(ts))
+			out = append(out, []int64{db.Model(&Owner{ID: k}).Association("Tags").Count()})
+			ts = nil
+			fail("m2m_assoc_unscoped_find", db.Unscoped().Model(&Owner{ID: k}).Association("Tags").Find(&ts))
+			uout = append(uout, tagIDs(ts))
+		}
 	}
 	// a nested join THROUGH the soft-deletable keeper: a marked keeper (and what lies behind it) is
 	// not joined, and an inner join does not match through it
@@ -812,7 +868,7 @@ func main() {
 	whr.NoIDAtoms = true // a twin differs from its original in the key only
 	db, _, _, err := gdb.Open(gdb.Opt{Config: &gorm.Config{NowFunc: func() time.Time { return t2 }}})
 	lib.Must(err)
-	lib.Must(db.AutoMigrate(&whr.TS{}, &whr.TSZ{}, &Owner{}, &Kid{}, &Keeper{}, &Pet{}, &Ward{}, &Org{}))
+	lib.Must(db.AutoMigrate(&whr.TS{}, &whr.TSZ{}, &Owner{}, &Kid{}, &Keeper{}, &Pet{}, &Ward{}, &Org{}, &Tag{}))
 	e := &env{db: db}
 	out := lib.NewOut(a.Out, "C08")
 	out.PerFile = 60
